@@ -81,6 +81,15 @@ pub(crate) mod harness;
 #[path = "../../../simlab/src/runner.rs"]
 pub(crate) mod runner;
 pub(crate) use harness::core;
+/// `crate::util` / `crate::simulation` as the included `pool_manager.rs` names them
+pub(crate) mod util {
+    pub(crate) use crate::tree::util::{bit, rng};
+}
+pub(crate) mod simulation {
+    /// stand-in for `nexosim::simulation::ModelId` (only stored by `register_panic`)
+    #[derive(Clone, Copy, Debug, PartialEq, Eq)]
+    pub(crate) struct ModelId(pub usize);
+}
 
 fn main() {
     harness::main()
